@@ -7,15 +7,16 @@ import json, os, subprocess, sys
 sys.path.insert(0, os.path.join(os.path.dirname(os.path.abspath(__file__)), "..", "lib"))
 import mcrapid
 
-MUT = {"revert-F-C08-2.diff": "C08", "revert-F-C03-1.diff": "C03", "revert-F-C10-2.diff": "C10", "revert-F-C10-4.diff": "C10", "revert-F-C05-2.diff": "C05"}
+MUT = {"revert-F-C08-2.diff": "C08", "revert-F-C03-1.diff": "C03", "revert-F-C10-2.diff": "C10", "revert-F-C10-4.diff": "C10", "revert-F-C05-2.diff": "C05", "revert-F-C10-3.diff": "C10"}
 ASFOUND = [("race", '{"watch-close-first"}', "ResetIsFresh"), ("faults", '{"clear-outside-mutex"}', "RuntimeAfterRegistrations"),
-           ("two", '{"reset-wrapper-releases"}', "OkHasBody")]
+           ("two", '{"reset-wrapper-releases"}', "OkHasBody"), ("twox", '{"double-reset"}', "OkHasBody")]
 
 
 def main():
     ok = True
     for name, asf, inv in ASFOUND:
-        r = mcrapid.run(name, [inv], constraint="KnownFindingsCutOff", asfound=asf, timeout=600)
+        # (the double reset is itself part of the cut-off: demonstrate it under the ghost cut-off alone)
+        r = mcrapid.run(name, [inv], constraint="NoGhostInvoke" if "double-reset" in asf else "KnownFindingsCutOff", asfound=asf, timeout=1800)
         good = r.violation == inv
         print("MC_Rapid/%s AsFound=%s: %s violated=%s (%d states in counterexample) %s"
               % (name, asf, inv, r.violation, len(r.trace), "OK" if good else "UNEXPECTED"))
